@@ -235,7 +235,8 @@ PROPS = {
     ),
     "C02": dict(
         theorems=["HC.C02.crash_refinement", "HC.C02.crash_refinement_from", "HC.C02.crash_atomic", "HC.C02.crash_then_continue", "HC.C02.acknowledged_stays", "HC.C02.history_invariants_reopen",
-                  "HC.C02.reopen_exact", "HC.C02.append_commit", "HC.C02.flush_atomic", "HC.C02.fresh", "HC.C02.reachable", "HC.C02.crash_atomic_partial"],
+                  "HC.C02.reopen_exact", "HC.C02.append_commit", "HC.C02.flush_atomic", "HC.C02.fresh", "HC.C02.reachable", "HC.C02.crash_atomic_partial",
+                  "HC.C02.replica_crash_atomic", "HC.C02.replica_first_crash_atomic", "HC.C02.replica_survives_crashes"],
         bridge_modules=["HC.Bridge.Oplog", "HC.Bridge.Stores"], bridging=OPLOG_BRIDGE + STORES_BRIDGE,
         runs=_c02_runs,
         partial="proved on the model (crash_atomic): after any history of calls and reopen steps of a writer core, for any further append_batch/clear/make_read_only/read and ANY prefix of its storage operations, Hypercore::new on the stores succeeds and the recovered core represents the log before the call or the log after it (length, byte length, has, get, exact contiguous length, writability), stays usable (crash_then_continue), and acknowledged calls stay applied (acknowledged_stays); crash points inside a flush (bitfield pages / tree nodes partly written, header written but entries not yet truncated) are inside the theorem. crash_refinement: histories in which calls complete, the store is closed and reopened, or the process dies after any number of storage operations of a call and the store is reopened, any number of times in any order, are observationally the abstract log in which each crash leaves the log before or after the interrupted call (recovery re-establishes the ghost invariant; Oplog::open cuts off stale entries - repo fix a6a0579). PROOF APPLICATIONS ON A REPLICA (replica_crash_atomic, replica_survives_crashes): for every replica state reached from creation (public key only) by first contact, honest upgrade/block/hash exchanges, close/reopen steps and earlier crashes (first contact included: replica_first_crash_atomic), every honest act and ANY prefix of the storage operations of its application (data write, oplog entry, and when the periodic flush is due bitfield pages, tree nodes, header, truncation), Hypercore::new succeeds and the replica shows exactly the state before the application or the state after it (length, byte length, has, get of every index, exact contiguous length) and satisfies the invariants again, so crashes can repeat without bound - the data write precedes the entry (a held bit never lacks its bytes), a bitfield store ahead of the header is tolerated because the replica's entries only set bits and the replayed hint is never stuck on a held bit (bitRun_exact), a tree store ahead of the header only gained reference nodes (replay_ext). Not proved (validated by reopening every journal prefix on the real crate and on the model, including repeated crashes): proofs that carry block+upgrade together, replica-side clears; same hypotheses as C01.full_refinement.",
